@@ -22,7 +22,7 @@ def check(prop, tier, seed):
         from . import cs
         return [hit, store.run_suite("smc_fault", tier, seed)] + cs.check("C19", tier, seed)
     scripts = G.fault_scripts(seed, params["n"], 61000000) + G.fault_churn_scripts(seed, params["churn_per_kind"], 62000000)
-    workdir = os.path.join(C.OUT, "work", key)
+    workdir = os.path.join(C.OUT, "work", "%s_%d" % (key, os.getpid()))
     C.sh(["rm", "-rf", workdir])
     r = C.exec_and_validate("world", scripts, workdir, "World_Trace.tla", "World_Trace.cfg")
     res = {"suite": "fault", "kind": "fault_enumeration", "params": params, "cache_hit": False,
